@@ -28,8 +28,9 @@ def src_h(v):
     return "def h(x):\n    if 'u' in globals():\n        u()\n    return g(x) + G + len(L) + %d\n" % v
 
 
-def src_globals(gv, ln):
-    return "G = %d\nL = %r\n" % (gv, list(range(ln)))
+def src_globals(gv, ln, gk="int"):
+    g = {"int": "G = %d\n" % gv, "fn": "def G():\n    return %d\n" % gv, "obj": "G = object()\n"}[gk]
+    return g + "L = %r\n" % (list(range(ln)),)
 
 
 def src_u():
@@ -37,7 +38,7 @@ def src_u():
 
 
 def full_text(st):
-    t = src_globals(st["G"], st["L"])
+    t = src_globals(st["G"], st["L"], st.get("Gk", "int"))
     if st["u"]:
         t += src_u()
     t += src_g(st["g"], st["gk"]) + src_h(st["h"]) + src_f(st["f"])
@@ -46,7 +47,7 @@ def full_text(st):
 
 EVENTS = ["redef-f", "redef-g", "redef-h", "rebind-G", "mutate-L", "define-u", "g-to-plain", "g-to-memento",
           "clone-partial", "clone-context", "clone-force-local", "wrapper", "query-f", "query-g", "query-clone", "query-wrapper",
-          "redef-f-same"]
+          "redef-f-same", "rebind-G-to-function", "rebind-G-to-object", "undo-g"]
 
 
 def fresh_versions(st):
@@ -110,7 +111,24 @@ def _history(events, L, warm):
                 prog.exec(src_h(st["h"]))
             elif name == "rebind-G":
                 st["G"] += 1
+                st["Gk"] = "int"
                 prog.exec("G = %d\n" % st["G"])
+            elif name == "rebind-G-to-function":
+                # the tracked variable becomes something memento cannot serialise: a plain function ...
+                st["G"] += 1
+                st["Gk"] = "fn"
+                prog.exec("def G():\n    return %d\n" % st["G"])
+            elif name == "rebind-G-to-object":
+                # ... or an arbitrary object
+                st["Gk"] = "obj"
+                prog.exec("G = object()\n")
+            elif name == "undo-g":
+                # g goes back to its previous edition (same text, hence same version, as one registered earlier)
+                if st["g"] == 0:
+                    continue
+                st["g"] -= 1
+                prog.exec(src_g(st["g"], st["gk"]))
+                cover("definition-restored")
             elif name == "mutate-L":
                 st["L"] += 1
                 prog.L.append(st["L"] - 1)
@@ -165,9 +183,10 @@ def _history(events, L, warm):
 
 @obligation(
     "C13.histories",
-    covers=("query", "query-clone", "query-wrapper", "query-after-event", "warm-cache"),
+    covers=("query", "query-clone", "query-wrapper", "query-after-event", "warm-cache", "definition-restored"),
     split={"e0": list(range(len(EVENTS)))},
-    bounds="all event sequences of length <= L over %d events (redefine f/g/h, rebind / mutate tracked variables, define an undefined "
+    bounds="all event sequences of length <= L over %d events (redefine f/g/h, restore g's previous edition, rebind / mutate tracked variables, rebind a tracked variable to a function / an "
+           "arbitrary object, define an undefined "
            "symbol, memento<->plain, three kinds of modifier clone, unregistered wrapper, version queries of f/g/clone/wrapper) on the "
            "program f -> h -> g with globals G, L; L = 3 quick, 4 thorough; version cache warm or cold at the start" % len(EVENTS),
     variables="choice: e0..e3 (event indices), warm bit",
